@@ -374,11 +374,12 @@ def cargo_build(crate, group, timeout=3600, bins=None):
         alt = os.path.join(WORK, "harness_alt_%d" % os.getpid())
         import atexit
         atexit.register(shutil.rmtree, alt, True)
-        shutil.rmtree(os.path.join(alt, crate), ignore_errors=True)
+        top = crate.split("/")[0]  # nested crates (h_sim/e2e) live inside a top-level harness dir
+        shutil.rmtree(os.path.join(alt, top), ignore_errors=True)
         for c in os.listdir(os.path.join(ROOT, "harness")):
             src = os.path.join(ROOT, "harness", c)
             dst = os.path.join(alt, c)
-            if c == crate or not os.path.exists(dst):
+            if c == top or not os.path.exists(dst):
                 shutil.rmtree(dst, ignore_errors=True)
                 shutil.copytree(src, dst, ignore=shutil.ignore_patterns("target", "Cargo.lock"))
                 for d, _, fs in os.walk(dst):
